@@ -7,7 +7,7 @@ frame model uses (`sid < 2^31`).
 -/
 namespace Bridge.PureH2
 
-private theorem and_top_bit (x : UInt32) :
+theorem and_top_bit (x : UInt32) :
     ((x &&& (2147483648 : UInt32)) == (0 : UInt32)) = decide (x.toNat < 2147483648) := by
   have hx : x.toNat < 2 ^ (31 + 1) := x.toNat_lt
   have h : (x &&& (2147483648 : UInt32)).toNat = x.toNat &&& 2 ^ 31 := by
